@@ -254,11 +254,11 @@ def gen_cases(tier, rng_seed):
             exp = model(s); ex = "%s(%s)" % (name, e1); p = p1
         cases.append(mk(fam, p, ex, exp, True))
     # strings with characters above 127 (one character each, two bytes inside the interpreter): positions and counts are
-    # in characters; UCASE$ / LCASE$ are left out (whether an accented letter is a letter is not fixed by the statement)
+    # in characters; UCASE$ / LCASE$ change the 26 letters only
     high = ["a", "b", "Z", " ", "1", "\u00e9", "\u00c8", "\u00ff", "\u00f1", "\u00a0"]
     for _ in range(700 if tier == "quick" else 30000):
         s = "".join(rng.choice(high) for _ in range(rng.randrange(0, 12)))
-        fam = rng.choice(["left", "right", "mid2", "mid3", "instr3", "ltrim", "rtrim", "len"])
+        fam = rng.choice(["left", "right", "mid2", "mid3", "instr3", "ltrim", "rtrim", "len", "ucase", "lcase"])
         n = rng.randrange(-1, len(s) + 3)
         m = rng.randrange(-1, len(s) + 3)
         f1, f2 = form(), form()
@@ -282,7 +282,7 @@ def gen_cases(tier, rng_seed):
             t = "".join(rng.choice(high) for _ in range(rng.randrange(0, 6)))
             exp = ("n", len(s) + len(t)); ex = "LEN(%s + %s)" % (e1, lit_str(t)); p = p1
         else:
-            model, name = {"ltrim": (m_ltrim, "LTRIM$"), "rtrim": (m_rtrim, "RTRIM$")}[fam]
+            model, name = {"ltrim": (m_ltrim, "LTRIM$"), "rtrim": (m_rtrim, "RTRIM$"), "ucase": (m_ucase, "UCASE$"), "lcase": (m_lcase, "LCASE$")}[fam]
             exp = model(s); ex = "%s(%s)" % (name, e1); p = p1
         c = mk(fam, p, ex, exp, True)
         c["f"] = "high_" + fam
